@@ -25,7 +25,7 @@ ASSUME = {
     "A-exec": "A-exec: async-std runs every spawned task and select! polls every arm (liveness only; never used to discharge an obligation)",
     "A-proc": "A-proc: Command::spawn fails or adds exactly one live child; kill requests termination; status().await waits for the child",
     "A-fs": "A-fs: directory listing, metadata, file contents, remove/create are the ghost world's functions (walkdir, is_file, .zinoma pruning are not verified)",
-    "A-codec": "A-codec: bincode decode returns Ok(s) iff the bytes are encode(s); encode is injective and prefix-free; SeaHasher is a function of the bytes written",
+    "A-codec": "A-codec: bincode decoding under a byte limit no larger than the file is total and returns Ok(s) iff the bytes are encode(s) (without such a limit it may panic on a corrupted length prefix - reproduced - which is why the decoder stub carries the precondition C05.corrupt-bounded); encode is injective and prefix-free; SeaHasher is a function of the bytes written",
     "A-cmd": "A-cmd: running build_command(script, dir) yields the world's cmd(dir, script)",
     "A-all": "A-all: iterator adapters and future combinators at the call sites — map/filter/collect, future::join / try_join_all, Result::map, and_then — behave as their names say (one result per element in order; fold of insert); the per-element closures are outlined and verified (R13); async_utils::both and ::all themselves are verified in the UTIL unit against futures-as-values (select yields either side first; buffer_unordered yields in any order)",
     "A-clap": "A-clap: clap's ArgMatches::is_present is an uninterpreted predicate of the flag name",
@@ -33,7 +33,7 @@ ASSUME = {
     "A-walkdir": "A-walkdir: walkdir yields every entry at or below the root (root included), parents before children, links not followed; filter_entry(p) skips an entry for which p is false together with everything below it; an entry's path is the root path followed by the names down to it; the root entry is named by the last normal component of the root path; items reported as errors carry no entry",
     "A-adapters": "A-adapters (FS unit): Option::map/filter/is_some_and/is_none_or/unwrap_or and spawn_blocking(f).await are replaced at their site by their definition over the outlined closures; Iterator::any, filter().map().collect(), filter_entry().filter_map().collect() and join_all(..).flatten().collect() by stubs restating the chain's documented meaning in terms of the outlined closure's contract; every site text is pinned by its skeleton",
     "A-kani": "A-kani (bounded stand-in): async_std::path::Path is std::path::Path; anyhow!'s text is dropped; results hold within the stated bounds only",
-    "A-notify": "A-notify: notify calls the handler for every event under a watched path that existed at watch() time",
+    "A-notify": "A-notify: notify calls the handler for every event under a watched path that existed at watch() time; watch() on a path that does not exist fails with PathNotFound or with Io(NotFound), depending on the back end (inotify: the latter - reproduced), and any other failure is a hard error",
     "A-yaml": "A-yaml: serde_yaml / clap parsing are not modelled; load_project is an arbitrary function returning Result<Project>",
     "A-arith": "A-arith: machine integers; Verus checks overflow on the usize/u64 arithmetic in scope",
     "A-bridge": "A-bridge: the projection of a real execution onto one actor is a run of that actor's verified loop with the oracle's choices (DESIGN §8); not mechanised",
